@@ -317,6 +317,7 @@ func runC13(w *World, r *Report) {
 		}
 		// newer creation time wins: under `createTime > last.CreateTime` the last id is marked repeated, else the current one
 		okNewer := false
+		nScope := 0
 		for _, b := range body.Blocks {
 			cond, t, f, isIf := ifSuccs(b)
 			if !isIf {
@@ -348,6 +349,30 @@ func runC13(w *World, r *Report) {
 			if markIn(newerB, last) && markIn(olderB, cur) {
 				okNewer = true
 			}
+			// the two incarnations compared belong to one database: the remembered one is found through a lookup
+			// keyed (at some level) by the database id of the listed one
+			scoped := false
+			for _, side := range []ssa.Value{bo.X, bo.Y} {
+				for _, x := range backSlice(side, SliceOpts{MaxDepth: 10}) {
+					lk, isL := x.(*ssa.Lookup)
+					if !isL {
+						continue
+					}
+					for _, y := range backSlice(lk.Index, SliceOpts{MaxDepth: 6, ThroughArg: func(c *ssa.CallCommon) []ssa.Value { return callArgs(c) }}) {
+						if c, isC := y.(*ssa.Call); isC && callSym(c.Common()).name == "GetDbId" {
+							scoped = true
+						}
+						if strings.HasSuffix(w.accessPath(y), ".DbId") {
+							scoped = true
+						}
+					}
+				}
+			}
+			nScope++
+			r.Check(scoped, "C13-R4", fmt.Sprintf("(*CollectionReader).StartRead | incarnations are compared within one database #%d", nScope), bo.Pos(), "the remembered incarnation is looked up under the listed collection's database id", "creation times of same-named collections are compared across databases: a live collection whose name also exists in another database is recorded as an older incarnation (dropped) and never replicated")
+		}
+		if nScope == 0 {
+			r.Fail("C13-R4", "(*CollectionReader).StartRead | incarnations are compared within one database", body.Pos(), "no comparison of creation times found")
 		}
 		r.Check(okNewer, "C13-R4", "(*CollectionReader).StartRead | newest incarnation wins", body.Pos(), "the incarnation with the smaller CreateTime is the one marked repeated", "the comparison of creation times marks the wrong incarnation as repeated (the older one would be replicated)")
 		// SkipCollectionState -> AddDroppedCollection in the collection consumer
